@@ -246,6 +246,8 @@ CHART_OPTS = [
     dict(md=True, dir="BT", title=False, headers=[], add=True, uniq=False, nt=NODE_T_BRACKET, et=EDGE_T_NAMES),
     dict(md=False, dir="RL", title="", headers=None, add=False, uniq=False, nt=None, et="{from_id} -.-> {to_id}"),
     dict(md=True, dir="TB", title=None, headers=["%% h"], add=True, uniq=True, nt="{node.name}", et=EDGE_T_NAMES),
+    dict(md=False, dir="TD", title=True, headers=None, add=True, uniq=True, nt=NODE_T_BRACKET, et=EDGE_T_NAMES, call=True),
+    dict(md=False, dir="TD", title=False, headers=None, add=False, uniq=False, nt=None, et="{to_id} <-- {from_id}", call=True),
     # malformed stream: a string edge_mapper gets no kind keyword; unknown fields
     dict(md=True, dir="TD", title=True, headers=None, add=True, uniq=True, nt=None, et='{from_id}-- "{kind}" -->{to_id}'),
     dict(md=False, dir="TD", title=True, headers=None, add=False, uniq=True, nt="{nope}", et=None),
@@ -263,8 +265,15 @@ def coq_mopts(o):
 def chart_lines(tree, st, o):
     """the emitted chart as a list of lines, or -1 when the export raises"""
     buf = io.StringIO()
+    nt, et = o["nt"], o["et"]
+    if o.get("call"):
+        # the same mappers given as callables (the model does not distinguish: a callable is modelled by its template)
+        if nt is not None:
+            nt = (lambda t: lambda node: t.format(node=node))(nt)
+        if et is not None:
+            et = (lambda t: lambda fi, fn, ti, tn: t.format(from_id=fi, from_node=fn, to_id=ti, to_node=tn))(et)
     kw = dict(as_markdown=o["md"], direction=o["dir"], title=o["title"], headers=o["headers"], unique_nodes=o["uniq"],
-              node_mapper=o["nt"], edge_mapper=o["et"])
+              node_mapper=nt, edge_mapper=et)
     try:
         if st is None:
             tree.to_mermaid_flowchart(buf, add_root=o["add"], **kw)
@@ -386,6 +395,11 @@ def dot_doc_lines(tree, st, o, kt):
     kw = dict(unique_nodes=o["uniq"], graph_attrs=dict(o["g"]), node_attrs=dict(o["n"]), edge_attrs=dict(o["e"]),
               node_mapper=_setter(o["nm"]), edge_mapper=_setter(o["em"]))
     lines = list(tree.to_dot(add_root=o["add"], **kw) if st is None else st.to_dot(add_self=o["add"], **kw))
+    if st is None:
+        buf = io.StringIO()
+        tree.to_dotfile(buf, add_root=o["add"], **kw)
+        if buf.getvalue() != "".join(ln + "\n" for ln in lines):
+            lines = lines + ["<to_dotfile wrote different lines than to_dot>"]    # fails the oracle's tail check
     if o["uniq"]:
         return lines
     out = []
@@ -435,7 +449,7 @@ def dot_doc_oracle(tree, st, typed, o, lines):
     if lines[:len(head)] != head:
         return f"dot-doc-head: {tag}: got {lines[:len(head)]!r}"
     if lines[-1] != "}":
-        return f"dot-doc-tail: {tag}"
+        return f"dot-doc-tail: {tag}: last line {lines[-1]!r}"
     body = lines[len(head):-1]
     try:
         cut = body.index("  # Edge Definitions")
@@ -513,19 +527,31 @@ class Prop:
         "@<allocation index> before the comparison",
     ]
     manifest = dict(
-        text=("Machine-checked theorems (Coq 8.16, no axioms) about an executable model of node_to_dot, the Mermaid flowchart "
-              "iterator and the RDF graph builder: for every start node with unique node identities the defined graph nodes are "
-              "the first occurrences by key of ([start] if included) ++ pre-order descendants (no key twice, every key present), "
-              "the edges are exactly one (key parent, key child, kind child) per node whose parent is in the export, in pre-order, "
-              "excluding the start removes exactly its definition and one edge per child of it, Mermaid indices are a bijection "
-              "between distinct keys and 0/1..k in first-occurrence order, and the RDF has_child triples are exactly the image of "
-              "the exported tree edges with a name (and kind) triple per node.  The model is tied to /repo on every run by a "
-              "correspondence check (vm_compute vs. parsed output of the implementation) and an independent Python oracle."),
+        text=("Machine-checked theorems (Coq 8.16, no axioms, induction over arbitrary trees) about an executable model of "
+              "node_to_dot (+ TypedNode.to_dot), _node_to_mermaid_flowchart_iter and the RDF graph builder.  The pairs (parent, "
+              "node) the exporters iterate are one per descendant in pre-order, exactly the parent-child links below the start "
+              "node, with the unique parent that a search (and the C10 parent query) finds.  DOT: the defined keys are the first "
+              "occurrences of (start?) ++ pre-order keys (data_id, or node identity when unique_nodes is off: then nothing is "
+              "merged), no key twice, every exported node's key present, labels = name of the first node with the key; the edges "
+              "are exactly one (key parent, key n, kind n) per node whose parent is part of the export, in pre-order; excluding "
+              "the start node is an equation: with it every child c contributes (s->c) followed by c's own export, without it "
+              "just c's own export (permutation and count corollaries), and the definitions differ by the start key only; every "
+              "edge joins defined nodes.  Mermaid: the node table is the distinct keys in first-occurrence order numbered from "
+              "0/1, one node line per entry with the first node's name, and decoding every edge line through the table gives "
+              "exactly the DOT edge list (no failing lookup); the line texts come from the templates GENERATED from mermaid.py "
+              "(tokenisation obligations; a template change breaks them); the whole chart/document texts (header options, "
+              "string templates, attribute dicts, mappers) are renderings of these lists.  RDF (a triple set): has_child "
+              "triples are exactly the image of the tree edges whose parent is exported; one name (kind) triple per exported "
+              "node, one index triple per node below the start.  The model is tied to /repo on every run by a correspondence "
+              "check (vm_compute vs. the parsed and the raw output of the implementation) and an independent Python oracle."),
         note=("Trusted: Coq kernel + vm_compute; hand-written model theories/Forest/Export.v (tied by the correspondence only); "
               "harness parsers (strict: an unknown line is a harness error), generators and oracle; rdflib term equality. "
-              "Text-level quoting of keys/names is not modelled (two data_ids printing alike, e.g. 1 and '1', collide in DOT). "
-              "Defects D36 (dot.py) and D37 (rdf.py) are repaired by fixes/D36.diff, fixes/D37.diff; the theorems are about the "
-              "repaired code, the pre-repair behaviour is kept in the model under fx=false with refutation witnesses."),
+              "Quoting/escaping of keys and names is not modelled (two data_ids printing alike, e.g. 1 and '1', collide in DOT; "
+              "int keys are proved to print injectively).  Callable Mermaid mappers are exercised only through callables "
+              "equivalent to a template; RDF node_mapper is left at None.  Defects D36 (dot.py), D37 (rdf.py) and D171 "
+              "(mermaid.py: node template overwritten by the edge template) are repaired by fixes/D36.diff, D37.diff, "
+              "D171.diff; the theorems are about the repaired code, the pre-repair behaviour of D36/D37 is kept in the model "
+              "under fx=false with refutation theorems."),
         technique="Coq proof about an executable Gallina model + differential correspondence check (vm_compute) + Python oracle",
         design_ref="DESIGN.md section 6 (C17), section 7 (D36, D37)",
     )
@@ -613,7 +639,8 @@ class Prop:
                 title=rng.choice([True, False, None, "", "T x"]), headers=rng.choice([None, [], ["%% h1", "%% h2"]]),
                 add=rng.random() < 0.5, uniq=rng.random() < 0.5,
                 nt=rng.choice([None, None, NODE_T_BRACKET, "{node.name}"]),
-                et=rng.choice([None, None, EDGE_T_NAMES, "{to_id} <-- {from_id}"]))] for _ in range(3)]
+                et=rng.choice([None, None, EDGE_T_NAMES, "{to_id} <-- {from_id}"]),
+                call=rng.random() < 0.3)] for _ in range(3)]
             docs = [[rng.choice([0] + starts), dict(
                 add=rng.random() < 0.5, uniq=rng.random() < 0.5,
                 g=rng.choice([[], [["rankdir", "LR"]]]), n=rng.choice([[], [["style", "filled"], ["fillcolor", "#eee"]]]),
